@@ -267,3 +267,24 @@ def values(selectors, macros, scopes, depth=2, lit=None):
       st.lists(sub, max_size=3).map(lambda xs: ['tuple', xs]),
       st.lists(st.tuples(keys, sub).map(list), max_size=3, unique_by=lambda kv: kv[0][1]).map(
           lambda xs: ['dict', xs]))
+
+
+def render_simple(s, tape, feats):
+  """One statement per chunk, plain layout; blocks as ["block", scope, selector, [[arg, V]..]].
+
+  Returns the statement's lines (values may still span several lines)."""
+  if s[0] == 'bind':
+    return (render_key(s[1], s[2]) + '.' + s[3] + ' = ' +
+            render_value(s[4], tape, feats)).split('\n')
+  if s[0] == 'block':
+    lines = [render_key(s[1], s[2]) + ':']
+    for arg, v in s[3]:
+      lines += ('  ' + arg + ' = ' + render_value(v, tape, feats)).split('\n')
+    return lines
+  if s[0] == 'macro':
+    return (render_key(s[1], s[2]) + ' = ' + render_value(s[3], tape, feats)).split('\n')
+  if s[0] == 'import':
+    return [s[1]]
+  if s[0] == 'include':
+    return ["include '%s'" % s[1]]
+  raise ValueError(s)
